@@ -1,9 +1,9 @@
 ID = 'C17'
 UNITS = {'args': dict(wrap='wrap.cc', shim=True, new_block=64, cxxflags=['-DVERIF_UMAP_CAP=6']),
          # split_args: vector<string> of k words needs 32*pow2ceil(k) bytes from operator new
-         'split64': dict(wrap='wrap.cc', shim=True, new_block=64, cxxflags=['-DVERIF_UMAP_CAP=6'], ir2c_flags=['--ptrdiff', '--flat-unions'], gen_defs=['VERIF_NEW_U64']),
-         'split128': dict(wrap='wrap.cc', shim=True, new_block=128, cxxflags=['-DVERIF_UMAP_CAP=6'], ir2c_flags=['--ptrdiff', '--flat-unions'], gen_defs=['VERIF_NEW_U64'])}
-UNITS['cls'] = dict(wrap='wrap.cc', shim=True, new_block=320, cxxflags=['-DVERIF_UMAP_CAP=4'], ir2c_flags=['--ptrdiff', '--flat-unions'], gen_defs=['VERIF_NEW_U64'])
+         'split64': dict(wrap='wrap.cc', shim=True, new_block=64, cxxflags=['-DVERIF_UMAP_CAP=6'], ir2c_flags=['--ptrdiff', '--flat-unions'], gen_defs=['VERIF_NEW_U64', 'VERIF_NEW_ZERO']),
+         'split128': dict(wrap='wrap.cc', shim=True, new_block=128, cxxflags=['-DVERIF_UMAP_CAP=6'], ir2c_flags=['--ptrdiff', '--flat-unions'], gen_defs=['VERIF_NEW_U64', 'VERIF_NEW_ZERO'])}
+UNITS['cls'] = dict(wrap='wrap.cc', shim=True, new_block=320, cxxflags=['-DVERIF_UMAP_CAP=4'], ir2c_flags=['--ptrdiff', '--flat-unions'], gen_defs=['VERIF_NEW_U64', 'VERIF_NEW_ZERO'])
 FAST = []
 BOUNDS = ''
 STUBS = []
@@ -30,6 +30,12 @@ def queries(tier):
     for nt, ls in cells:
         d = {'NTOK': nt}
         for i, l in enumerate(ls): d['L%d' % i] = l
-        qs.append(dict(name='classify_' + '_'.join(map(str, ls)), unit='cls', harness='h_classify.c', defs=d, unwind=8, timeout=900, mem_gb=8, flags=FAST,
-                       tv_runs=150, desc='classification of %d tokens of lengths %s' % (nt, ls), bounds='token lengths %s, all byte values but NUL' % (ls,)))
+        maxname = max([1] + [l - 2 for l in ls])          # flag names have length 1, --name up to len-2
+        maxvals = sum(max(1, l - 1) for l in ls)          # "-ab" contributes len-1 values
+        qlist = [(1, i, 0) for i in range(nt + 1)] + [(2, j, k) for k in range(0, maxname + 1) for j in range(maxvals + 1) if not (k != 1 and j >= nt + 1)]
+        for qk, qi, kl in qlist:
+            dd = dict(d, QKIND=qk, QIDX=qi, KLEN=kl)
+            qs.append(dict(name='classify_%s_q%d_%d_%d' % ('_'.join(map(str, ls)), qk, qi, kl), unit='cls', harness='h_classify.c', defs=dd, unwind=6, timeout=900, mem_gb=8, flags=FAST,
+                           tv_runs=60, desc='classification of %d tokens of lengths %s; query kind %d index %d key length %d' % (nt, ls, qk, qi, kl), bounds='token lengths %s, all byte values but NUL' % (ls,)))
+    qs.append(dict(name='exp3', unit='cls', harness='h_exp.c', defs={'L0': 3}, unwind=6, timeout=900, mem_gb=8, flags=['--verbosity', '8']))
     return qs
